@@ -3,6 +3,7 @@ package harness
 import (
 	"encoding/json"
 	"fmt"
+	"github.com/indexsupply/shovel/shovel"
 	"strings"
 
 	"verifsim/fakepg"
@@ -223,6 +224,48 @@ func GenC16(seed uint64) *Plan {
 // selected input, a block field or a notification needs is removed.
 func c16AtEnd(w *World) {
 	snap := w.srv.DB.Snapshot()
+	// (0) the printed table definitions (config.DDL, what -print-schema
+	// emits) on an empty database give every table the columns the
+	// migrations gave it (pre-existing tables may have more) and a unique key
+	if w.plan.PreDDL == nil {
+		s2 := fakepg.NewServer()
+		err := s2.InstallSchema(shovel.Schema)
+		for _, stmt := range config.DDL(w.conf) {
+			if err == nil {
+				err = s2.InstallSchema(stmt)
+			}
+		}
+		if err != nil {
+			w.violate("printed-schema-fails", "the printed table definitions do not load into an empty database: %v", err)
+		} else {
+			snap2 := s2.DB.Snapshot()
+			seen := map[string]bool{}
+			for _, d := range w.plan.Decls {
+				full := "public." + d.Table.Name
+				if seen[full] {
+					continue
+				}
+				seen[full] = true
+				t1, t2 := snap.Table(full), snap2.Table(full)
+				if t1 == nil {
+					continue
+				}
+				w.stat("probe_printed_schema_checked", 1)
+				if t2 == nil {
+					w.violate("printed-schema-lacks-column", "the printed table definitions do not create table %s", d.Table.Name)
+					continue
+				}
+				for _, c := range t1.Cols {
+					if t2.Col(c.Name) < 0 {
+						w.violate("printed-schema-lacks-column", "the printed definition of table %s lacks column %q, which the migrations created (a table shared by several integrations gets the union of their columns)", d.Table.Name, c.Name)
+					}
+				}
+				if len(w.srv.DB.UniqueIndexes(full)) > 0 && len(s2.DB.UniqueIndexes(full)) == 0 {
+					w.violate("printed-schema-lacks-column", "the printed definition of table %s has no unique key", d.Table.Name)
+				}
+			}
+		}
+	}
 	for _, ps := range w.pairs {
 		ts, rows := w.dataRowsOf(snap, ps)
 		if ts == nil {
